@@ -95,6 +95,13 @@ pub fn exec(_label: &str, input: &str, out: &mut CaseOut) {
             // stream = buffer
             let base = decode_bytes(&bytes).map(|v| vx::show(&v));
             let base_rows = rows_via(&bytes, usize::MAX, 0);
+            // parse_grid is the collected lazy iterator: same rows, same order
+            if let (Value::Grid(g), true) = (&v, text.starts_with("ver")) {
+                let whole: Vec<String> = g.rows.iter().map(|r| vx::show(&Value::Dict(r.clone()))).collect();
+                if base_rows.as_ref() != Some(&whole) {
+                    out.fail("grid_ne_iterator", format!("from_str has {} rows, parse_grid_iterator yields {:?} rows   t={text:?}", whole.len(), base_rows.as_ref().map(|r| r.len())));
+                }
+            }
             for (chunk, intr) in [(1usize, 0usize), (2, 3), (3, 2), (7, 0), (64, 5)] {
                 let mut rd = FaultyReader { data: &bytes, pos: 0, chunk, intr, fail_at: None, calls: 0, transient: false, failed_once: false };
                 let got = match Parser::make(&mut rd) {
@@ -213,8 +220,23 @@ pub fn generate(ctx: &mut Ctx) {
         let mut rng = ctx.rng.fork();
         let cfg = Cfg::wf(if i % 10 == 0 { 5 } else { 3 });
         let v = if i % 3 == 0 { Value::Grid(gen::grid(&mut rng, &cfg, 0)) } else { gen::value(&mut rng, &cfg) };
-        let t = spell::spell(&mut rng, &v);
+        let mut t = spell::spell(&mut rng, &v);
+        if i % 3 == 0 && rng.chance(1, 3) {
+            // white space after the grid's closing empty line
+            for _ in 0..1 + rng.below(3) {
+                const WS: &[&str] = &["\n", "\n\n", " ", "\t", "\r\n", " \n"];
+                let w: &str = *rng.pick::<&str>(WS);
+                t.push_str(w);
+            }
+        }
         ctx.case("z:spelled", &format!("z {}", vx::h(&t)));
+    }
+    // grids without rows, with and without white space after them
+    for head in ["a", "id,dis", "a,b,c", "a x:1", "a, b"] {
+        for tail in ["\n", "\n\n", "\n\n\n", "\n\n \t", "\r\n\r\n\r\n", "\n\n\n\n", "\n \n", "\n\n1"] {
+            ctx.case("z:norows", &format!("z {}", vx::h(&format!("ver:\"3.0\"\n{head}{tail}"))));
+            ctx.case("z:norows", &format!("z {}", vx::h(&format!("ver:\"3.0\" m:1\n{head}\n1{tail}"))));
+        }
     }
     // the library's own output and its mutants (accepted ones count)
     let docs = crate::c03::sample_docs(ctx, ctx.n(40, 300));
@@ -262,6 +284,30 @@ pub fn generate(ctx: &mut Ctx) {
             let m = if rng.chance(2, 3) { j.into_bytes() } else { crate::c03::mutate_bytes(&mut rng, j.as_bytes()) };
             ctx.case("j", &format!("j {}", vx::hex(&m)));
         }
+    }
+    // Hayson documents written by the reference speller (optional members as the specification has them,
+    // whatever the library's own writer would print)
+    let n = ctx.n(1500, 60_000);
+    for i in 0..n {
+        let mut rng = ctx.rng.fork();
+        let v = if i % 5 == 0 {
+            // non-finite numbers with a unit, alone and nested
+            let x = *rng.pick(&[f64::INFINITY, f64::NEG_INFINITY, f64::NAN]);
+            let nv = Value::Number(Number { value: x, unit: Some(*rng.pick(gen::all_units_cached())) });
+            match rng.below(3) {
+                0 => nv,
+                1 => Value::List(vec![Value::Marker, nv]),
+                _ => {
+                    let mut d = Dict::new();
+                    d.insert("n".into(), nv);
+                    Value::Dict(d)
+                }
+            }
+        } else {
+            gen::value(&mut rng, &Cfg::any(3))
+        };
+        let j = crate::jtok::to_text(&crate::jspell::spell(&mut rng, &v));
+        ctx.case("j:spelled", &format!("j {}", vx::h(&j)));
     }
     // look-ahead of the lazy row iterator
     let n = ctx.n(300, 6000);
